@@ -226,7 +226,7 @@ pub fn sim_check(id: &str) -> Option<SimCheck> {
         },
         "C04" => SimCheck {
             id: "C04",
-            prof: Profile { gen: GenOpts { wide: true, undeclared_pool_pct: 6, max_steps: 10, regen_pct: 15, ..sched_gen() }, edits: [5, 4, 1, 1, 1, 0, 2, 1, 1, 2, 2, 1, 1, 1], fault_pct: 20, kill_pct: 0, ..base },
+            prof: Profile { gen: GenOpts { wide: true, undeclared_pool_pct: 6, max_steps: 10, regen_pct: 30, ..sched_gen() }, edits: [5, 4, 1, 1, 1, 0, 2, 1, 1, 2, 2, 1, 1, 1], fault_pct: 20, kill_pct: 0, ..base },
             quick: 160_000,
             thorough: 2_000_000,
             rule: "wide graphs with 0-2 declared pools (depth 0-3), console, default pool, undeclared pools; -j 1..4,16; scripted completion order and failures; oracle at every start: running <= j and per-pool running <= depth; undeclared pool => `unknown pool` error iff such a step needs to run; retrospective work-conservation so limits are not met by idling. Non-trivial: a pool was at its depth while another command ran, or -j was reached, or an unknown-pool error occurred",
